@@ -7,7 +7,7 @@
    Part 3: the scanner's and the checker's loops over item sequences.
    Part 4: the printer's loop emits such a sequence; expansion. *)
 From Coq Require Import List ZArith Bool Lia.
-From RtoscV Require Import Pretty.Tok Pretty.FloatFmt Pretty.PrintModel Pretty.ScanModel
+From RtoscV Require Import Pretty.Tok Pretty.FloatFmt Pretty.PrintModel Pretty.ScanModel Pretty.FloatProofs Pretty.SymBlobProofs
   Pretty.PrettyProofs Pretty.RangeProofs Pretty.RunProofs.
 Import ListNotations.
 Local Open Scope Z_scope.
@@ -255,15 +255,21 @@ Fixpoint lastns (u : list Z) (c0 : Z) : Z :=
   match u with [] => c0 | c :: r => lastns r (if isspace c then c0 else c) end.
 
 Lemma find_ell_skip u E : forall c0,
-  Forall (fun c => c <> 46) u -> lastns u c0 <> 40 ->
+  sdots u -> lastns u c0 <> 40 ->
   find_ellipsis (u ++ [46; 46; 46] ++ E) c0 = Some ([46; 46; 46] ++ E).
 Proof.
-  induction u as [|c u IH]; intros c0 Hu Hl.
+  intros c0 Hu. revert c0. induction Hu as [|c u Hc Hu IH|c u Hc Hu IH]; intros c0 Hl.
   - cbn [app lastns] in *. cbn [find_ellipsis]. replace (c0 =? 40) with false by lia. reflexivity.
-  - inversion Hu as [|? ? Hc Hu']; subst. cbn [app find_ellipsis lastns] in *.
+  - cbn [app find_ellipsis lastns] in *.
     assert (Hsw : forall t, starts_with ellipsis (c :: t) = false).
     { intros t. unfold starts_with, ellipsis. cbn [strip_prefix]. now replace (c =? 46) with false by lia. }
-    rewrite Hsw. cbn [andb]. apply (IH _ Hu' Hl).
+    rewrite Hsw. cbn [andb]. apply (IH _ Hl).
+  - change ((46 :: c :: u) ++ [46; 46; 46] ++ E) with (46 :: (c :: u) ++ [46; 46; 46] ++ E).
+    cbn [find_ellipsis].
+    assert (Hsw : starts_with ellipsis (46 :: (c :: u) ++ [46; 46; 46] ++ E) = false).
+    { unfold starts_with, ellipsis. cbn [strip_prefix app]. rewrite Z.eqb_refl. now replace (c =? 46) with false by lia. }
+    rewrite Hsw. cbn [andb]. change (isspace 46) with false. cbv iota.
+    apply IH. cbn [lastns] in Hl. exact Hl.
 Qed.
 
 Lemma lastns_app u v c0 : lastns (u ++ v) c0 = lastns v (lastns u c0).
@@ -353,8 +359,8 @@ Variables dec2f dec2d : list Z -> Z.
 
 Definition item_ok (p : option av) (it : item) : Prop :=
   match it with
-  | IVal v t => tokof dec2f dec2d v t /\ nodot t
-  | IRep n v t => 1 <= n < 2 ^ 31 /\ tokof dec2f dec2d v t /\ nodot t
+  | IVal v t => tokof dec2f dec2d v t /\ sdots t
+  | IRep n v t => 1 <= n < 2 ^ 31 /\ tokof dec2f dec2d v t /\ sdots t
   | ITail k b d m last sp => run_ok k b d m last /\ (sp = [32] \/ sp = nl4) /\ ctx_ok p k b d m
   end.
 
@@ -535,6 +541,20 @@ Proof.
   rewrite E in Hs. cbn [skip_next] in Hs. discriminate.
 Qed.
 
+(* the token of a scalar value does not start with a bracket *)
+Lemma tok_not_lb v t rest :
+  tokof dec2f dec2d v t -> rest_ok rest -> (hd0 (t ++ rest) =? 91) = false.
+Proof.
+  intros (Hrd & _ & Hsc) Hr. apply Z.eqb_neq. intros Hh.
+  destruct (Hrd rest Hr) as [Hs _]. specialize (Hs 0%nat None false false).
+  destruct (t ++ rest) as [|c r] eqn:Esrc; [discriminate|]. rewrite hd0_cons in Hh. subst c.
+  cbn [skip_next] in Hs. unfold skip_core in Hs. change (first_class 91) with FC_lb in Hs. cbv iota in Hs.
+  match type of Hs with context [skip_array_loop ?a ?b ?c ?d ?e ?f] =>
+    destruct (skip_array_loop a b c d e f) as [[r' k]| | |]; try discriminate end.
+  destruct (hd0 r' =? 93); try discriminate. cbn [andb] in Hs. inversion Hs as [[E1 E2 E3]].
+  destruct v; cbn in E3; try discriminate. exact Hsc.
+Qed.
+
 Lemma rep_mult n t rest : 1 <= n ->
   is_range_multiplier (dec_nat n ++ 120 :: t ++ rest) = true /\
   after_x (dec_nat n ++ 120 :: t ++ rest) = t ++ rest /\ nodot (dec_nat n ++ [120]).
@@ -600,6 +620,7 @@ Proof.
   - (* a value *)
     destruct Hpok as [Htk Hnt]. subst v.
     apply (Hgoal t _ Htk eq_refl). unfold chk_l1.
+    rewrite (not_range_mult_reads pv t _ Htk Hro), (tok_not_lb pv t _ Htk Hro).
     replace (t ++ sepp ++ tail_text k b last sp ++ rest)
       with ((t ++ sepp ++ ib' ++ [cb] ++ [32]) ++ [46; 46; 46] ++ X)
       by (rewrite ET0, Etb, <- !app_assoc; reflexivity).
@@ -608,8 +629,8 @@ Proof.
       replace ((t ++ sepp ++ ib' ++ [cb] ++ [32]) ++ [46; 46; 46] ++ X)
         with (t ++ sepp ++ tail_text k b last sp ++ rest)
         by (rewrite ET0, Etb, <- !app_assoc; reflexivity).
-      now rewrite (not_range_mult_reads pv t _ Htk Hro).
-    + repeat (apply Forall_app; split); assumption.
+      reflexivity.
+    + apply sdots_app; [exact Hnt|]. apply nodot_sdots. repeat (apply Forall_app; split); assumption.
     + rewrite !app_assoc. rewrite <- (app_assoc _ [cb] [32]). rewrite lastns_end; [assumption|assumption|repeat constructor].
   - (* a repetition *)
     destruct Hpok as (Hn & Htk & Hnt). subst v.
@@ -617,21 +638,29 @@ Proof.
     apply Forall_app in Hnd1 as [Hn1a Hn1b].
     apply (Hgoal t _ Htk eq_refl). unfold chk_l1.
     replace ((dec_nat n ++ 120 :: t) ++ sepp ++ tail_text k b last sp ++ rest)
+      with (dec_nat n ++ 120 :: t ++ sepp ++ tail_text k b last sp ++ rest)
+      by (rewrite <- app_assoc; reflexivity).
+    rewrite Hm1, Hax, (tok_not_lb pv t _ Htk Hro).
+    replace (dec_nat n ++ 120 :: t ++ sepp ++ tail_text k b last sp ++ rest)
       with (((dec_nat n ++ [120]) ++ t ++ sepp ++ ib' ++ [cb] ++ [32]) ++ [46; 46; 46] ++ X)
       by (rewrite ET0, Etb, <- !app_assoc; reflexivity).
     rewrite find_ell_skip.
-    + rewrite Eell, Nat.ltb_irrefl.
-      replace (((dec_nat n ++ [120]) ++ t ++ sepp ++ ib' ++ [cb] ++ [32]) ++ [46; 46; 46] ++ X)
-        with (dec_nat n ++ 120 :: t ++ sepp ++ tail_text k b last sp ++ rest)
-        by (rewrite ET0, Etb, <- !app_assoc; reflexivity).
-      now rewrite Hm1, Hax.
-    + repeat (apply Forall_app; split); assumption.
+    + rewrite Eell, Nat.ltb_irrefl. reflexivity.
+    + apply sdots_app; [apply nodot_sdots; apply Forall_app; split; assumption|].
+      apply sdots_app; [exact Hnt|]. apply nodot_sdots. repeat (apply Forall_app; split); assumption.
     + rewrite !app_assoc. rewrite <- (app_assoc _ [cb] [32]). rewrite lastns_end; [assumption|assumption|repeat constructor].
   - (* a range tail: the neighbour is its last value *)
     destruct Hpok as ((Hsb' & Hsl' & _) & Hsp' & _). subst pv.
     destruct (tok_k_chars k' b' Hsb') as (Hnd' & i2 & c2 & Et2 & Hc240 & Hc2s).
     assert (Htl : tokof dec2f dec2d (mk k' last') (tok_k k' last')) by (apply tok_k_tokof; now apply small_good).
-    apply (Hgoal (tok_k k' last') _ Htl eq_refl). unfold chk_l1, tail_text at 1, ell4.
+    apply (Hgoal (tok_k k' last') _ Htl eq_refl). unfold chk_l1.
+    assert (Hnm : is_range_multiplier (tail_text k' b' last' sp' ++ sepp ++ tail_text k b last sp ++ rest) = false).
+    { unfold tail_text at 1. unfold ell4. rewrite <- app_assoc.
+      apply (not_range_mult dec2f dec2d (mk k' b') (tok_k k' b')); [apply tok_k_core; now apply small_good|].
+      split; [right; reflexivity|cbn; lia]. }
+    assert (Hnb : (hd0 (tail_text k' b' last' sp' ++ sepp ++ tail_text k b last sp ++ rest) =? 91) = false).
+    { unfold tail_text at 1. destruct (tok_k_hd k' b') as (c0 & r0 & E0 & Hc0). rewrite E0. cbn [app]. rewrite hd0_cons. lia. }
+    rewrite Hnm, Hnb. unfold tail_text at 1, ell4.
     replace ((tok_k k' b' ++ [32; 46; 46; 46] ++ sp' ++ tok_k k' last') ++ sepp ++ tail_text k b last sp ++ rest)
       with ((i2 ++ [c2] ++ [32]) ++ [46; 46; 46] ++ (sp' ++ tok_k k' last' ++ sepp ++ tail_text k b last sp ++ rest))
       by (rewrite Et2, <- !app_assoc; reflexivity).
@@ -643,7 +672,7 @@ Proof.
       rewrite Hlt. cbn [app skipn]. f_equal.
       destruct (tok_k_first dec2f dec2d k' last' (small_good _ _ Hsl')) as (c3 & r3 & E3 & Hc3).
       apply skip_ws_sep; [now apply sp_ws|]. rewrite E3. cbn [app]. rewrite hd0_cons. apply Hc3.
-    + rewrite Et2 in Hnd'. apply Forall_app. split; [now apply Forall_app in Hnd' as [Hnd' _]|].
+    + apply nodot_sdots. rewrite Et2 in Hnd'. apply Forall_app. split; [now apply Forall_app in Hnd' as [Hnd' _]|].
       apply Forall_app. split; [now apply Forall_app in Hnd' as [_ Hnd']|repeat constructor; lia].
     + rewrite lastns_end; [assumption|assumption|repeat constructor].
 Qed.
@@ -880,7 +909,7 @@ End Expand.
 
 (* ------------------------------------------------------------------------- *)
 (* Part 4: the printer                                                        *)
-Definition goodc (v : av) : Prop :=
+Definition goodc0 (v : av) : Prop :=
   match v with
   | VI i => small_k KI i | VH h => small_k KH h | VC c => small_k KC c
   | VT | VF | VN | VInf => True
@@ -891,12 +920,65 @@ Definition goodc (v : av) : Prop :=
   | _ => False
   end.
 
-Lemma goodc_good v : goodc v -> good_val v.
+(* floats and doubles: finite, and not the negative zero (a run of zeroes of
+   both signs is compressed to one of them: finding signed-zero-run) *)
+Definition zchoice (zf zd : Z) : Prop := (zf = 0 \/ zf = 2 ^ 31) /\ (zd = 0 \/ zd = 2 ^ 63).
+Definition goodfl (zf zd : Z) (v : av) : Prop :=
+  match v with
+  | VFl b => 0 <= b < 2 ^ 32 /\ f32_finite b = true /\ b <> zf
+  | VD b => 0 <= b < 2 ^ 64 /\ f64_finite b = true /\ b <> zd
+  | _ => False
+  end.
+
+(* the values of the list-level theorems; floats and doubles only with the
+   lossless option (the hexadecimal value in parentheses) *)
+(* symbols printed bare (identifier-shaped, no reserved word) and blobs *)
+Definition goodx (v : av) : Prop :=
+  match v with
+  | VSym s => sym_plain s = true
+  | VB d => Forall byte_ok d
+  | _ => False
+  end.
+
+Definition goodc (o : popts) (zf zd : Z) (v : av) : Prop :=
+  goodc0 v \/ goodx v \/ (lossless o = true /\ goodfl zf zd v).
+
+(* the same with the condition on the zeroes at list level (nozmix), as the
+   classifier of the check states it *)
+Definition goodfin (v : av) : Prop :=
+  match v with
+  | VFl b => 0 <= b < 2 ^ 32 /\ f32_finite b = true
+  | VD b => 0 <= b < 2 ^ 64 /\ f64_finite b = true
+  | _ => False
+  end.
+Definition goodv (o : popts) (v : av) : Prop := goodc0 v \/ goodx v \/ (lossless o = true /\ goodfin v).
+Definition nozmix (vs : list av) : Prop :=
+  (~ In (VFl 0) vs \/ ~ In (VFl (2 ^ 31)) vs) /\ (~ In (VD 0) vs \/ ~ In (VD (2 ^ 63)) vs).
+
+Lemma goodc0_good v : goodc0 v -> good_val v.
 Proof. destruct v; cbn; unfold small_k, good_k, good_char; try tauto; lia. Qed.
-Lemma goodc_facts v : goodc v -> scalar v /\ inrv v /\ exact v.
-Proof. destruct v; cbn; unfold small_k, good_k; try tauto; lia. Qed.
-Lemma goodc_mk k z : goodc (mk k z) -> small_k k z.
-Proof. destruct k; cbn; tauto. Qed.
+
+Lemma finite_notnan32 b : f32_finite b = true -> fl_isnan 23 8 b = false.
+Proof.
+  unfold f32_finite, fl_isnan. change (2 ^ 8 - 1) with 255. intros H. apply negb_true_iff in H. now rewrite H.
+Qed.
+Lemma finite_notnan64 b : f64_finite b = true -> fl_isnan 52 11 b = false.
+Proof.
+  unfold f64_finite, fl_isnan. change (2 ^ 11 - 1) with 2047. intros H. apply negb_true_iff in H. now rewrite H.
+Qed.
+
+Lemma goodc_facts o zf zd v : goodc o zf zd v -> scalar v /\ inrv zf zd v /\ exact v.
+Proof.
+  intros [H|[H|[_ H]]].
+  - destruct v; cbn in *; unfold small_k, good_k in *; try tauto; lia.
+  - destruct v; cbn [goodx] in H; try contradiction; cbn; tauto.
+  - destruct v; cbn [goodfl] in H; try contradiction; cbn [scalar inrv exact]; unfold flgood;
+      destruct H as (Hb & Hf & Hz).
+    + split; [exact I|]. split; [|exact I]. split; [exact Hb|]. split; [now apply finite_notnan32|exact Hz].
+    + split; [exact I|]. split; [|exact I]. split; [exact Hb|]. split; [now apply finite_notnan64|exact Hz].
+Qed.
+Lemma goodc_mk o zf zd k z : goodc o zf zd (mk k z) -> small_k k z.
+Proof. intros [H|[H|[_ H]]]; destruct k; cbn in H; tauto. Qed.
 
 Lemma pav_mk o k z cols f :
   print_arg_val_f (S f) o [mk k z] cols None = Some (tok_k k z, len (tok_k k z), cols + len (tok_k k z), false).
@@ -1024,13 +1106,13 @@ Qed.
 Section GoodcTok.
 Variables dec2f dec2d : list Z -> Z.
 
-Lemma goodc_tok o v cols t w c :
-  goodc v -> print_scalar o v cols = Some (t, w, c) ->
+Lemma goodc0_tok o v cols t w c :
+  goodc0 v -> print_scalar o v cols = Some (t, w, c) ->
   tokof dec2f dec2d v t /\ nodot t /\ w = len t.
 Proof.
-  intros Hg Hp. destruct (scalar_tok dec2f dec2d o v cols t w c (goodc_good v Hg) Hp) as [Htk Hw].
+  intros Hg Hp. destruct (scalar_tok dec2f dec2d o v cols t w c (goodc0_good v Hg) Hp) as [Htk Hw].
   split; [exact Htk|]. split; [|exact Hw].
-  destruct v; cbn [goodc] in Hg; try contradiction; cbn in Hp.
+  destruct v; cbn [goodc0] in Hg; try contradiction; cbn in Hp.
   - inversion Hp; subst. exact (proj1 (tok_k_chars KI i Hg)).
   - inversion Hp; subst. exact (proj1 (tok_k_chars KH h Hg)).
   - inversion Hp; subst. exact (proj1 (tok_k_chars KC c0 Hg)).
@@ -1049,6 +1131,48 @@ Proof.
   - inversion Hp; subst. repeat constructor; try lia; apply hexdig_ne46.
   - inversion Hp; subst. repeat constructor; try lia; apply hexdig_ne46.
 Qed.
+
+Lemma goodc_tok o zf zd v cols t w c :
+  goodc o zf zd v -> print_scalar o v cols = Some (t, w, c) ->
+  tokof dec2f dec2d v t /\ sdots t /\ w = len t.
+Proof.
+  intros [Hg|[Hg|[Hl Hg]]] Hp.
+  - destruct (goodc0_tok o v cols t w c Hg Hp) as (A & B & C). split; [exact A|]. split; [now apply nodot_sdots|exact C].
+  - destruct v; cbn [goodx] in Hg; try contradiction; cbn [print_scalar] in Hp.
+    + (* a bare symbol *)
+      destruct (sym_plain_facts s Hg) as (c0 & r0 & Es & Hc0 & Hs & _).
+      unfold print_string in Hp. rewrite Hg in Hp. cbn [andb] in Hp.
+      rewrite (print_chars_plain (linelength o) s cols Hs) in Hp. inversion Hp; subst t w c. clear Hp.
+      split; [|split; [|reflexivity]].
+      * split; [apply tok_core_reads; now apply tok_plainsym|]. split; [|exact I].
+        exists c0, r0. split; [exact Es|].
+        unfold isidstart, isalpha, isupper, islower, in_range in Hc0. unfold first_ok, isspace, in_range. lia.
+      * apply nodot_sdots. eapply Forall_impl; [|exact Hs]. intros a Ha. apply (idch_facts a Ha).
+    + (* a blob *)
+      destruct (print_blob o d cols) as [[t0 w0] c0] eqn:Eb. inversion Hp; subst t0 w0 c0. clear Hp.
+      destruct (print_blob_text o d cols t w c Eb) as (T & HT & -> & Hw).
+      split; [|split; [|exact Hw]].
+      * split; [apply tok_core_reads; now apply tok_blob|]. split; [|exact I].
+        eexists _, _. split; [reflexivity|]. unfold first_ok, isspace, in_range. lia.
+      * apply nodot_sdots. unfold blob_text. apply Forall_app. split; [repeat constructor; lia|].
+        apply Forall_app. split; [repeat constructor; lia|].
+        apply Forall_app. split; [eapply Forall_impl; [|apply print_d_chars]; cbn; lia|].
+        apply Forall_app. split; [|repeat constructor; lia].
+        clear -HT. induction HT as [|b d sep T Hsep HT IH]; [constructor|].
+        apply Forall_app. split; [destruct Hsep as [->| ->]; repeat constructor; lia|].
+        apply Forall_app. split; [repeat constructor; lia|].
+        apply Forall_app. split; [apply hex2_nodot|exact IH].
+  - destruct v; cbn [goodfl] in Hg; try contradiction; destruct Hg as (Hb & Hf & _);
+      cbn [print_scalar] in Hp; rewrite Hl in Hp; inversion Hp; subst; clear Hp.
+    + split; [|split; [apply (flt_text_sdots (prec o) (f32_to_f64 bits))|reflexivity]].
+      split; [apply tok_core_reads; now apply tok_float|]. split; [|exact I].
+      destruct (flt_text_first (prec o) (f32_to_f64 bits) []) as (c0 & tl & E & Hc).
+      rewrite app_nil_r in E. unfold flt_text in E. eauto.
+    + split; [|split; [apply (dbl_text_sdots (prec o) bits)|reflexivity]].
+      split; [apply tok_core_reads; now apply tok_double|]. split; [|exact I].
+      destruct (dbl_text_first (prec o) bits []) as (c0 & tl & E & Hc).
+      rewrite app_nil_r in E. unfold dbl_text in E. eauto.
+Qed.
 End GoodcTok.
 
 (* ---- one iteration of the printer's loop ---------------------------------------------------- *)
@@ -1065,6 +1189,8 @@ Section PrintLoop.
 Variables dec2f dec2d : list Z -> Z.
 Variable o : popts.
 Hypothesis Hon : compress o = true.
+Variables zf zd : Z.
+Hypothesis Hz : zchoice zf zd.
 Notation item_ok := (item_ok dec2f dec2d).
 
 Definition iter_text (p : option av) (its : list item) (t : list Z) : Prop :=
@@ -1093,7 +1219,7 @@ Proof.
 Qed.
 
 Lemma print_iter a0 rest size prev t tmp cols cols1 bb cv :
-  Forall goodc (a0 :: rest) -> Z.of_nat (length (a0 :: rest)) < 2 ^ 31 ->
+  Forall (goodc o zf zd) (a0 :: rest) -> Z.of_nat (length (a0 :: rest)) < 2 ^ 31 ->
   (forall p, prev = Some p -> scalar p) ->
   convert_to_range o (a0 :: rest) size = cv -> cv <> CUnmod ->
   print_arg_val o (match cv with CYes c _ => c | _ => a0 :: rest end) cols prev = Some (t, tmp, cols1, bb) ->
@@ -1105,25 +1231,25 @@ Lemma print_iter a0 rest size prev t tmp cols cols1 bb cv :
     nth_error (a0 :: rest) (inc - 1) = ilast its.
 Proof.
   intros Hg Hlen Hprev Hcv Hnu Hp.
-  pose proof (Forall_inv Hg) as Hg0. destruct (goodc_facts a0 Hg0) as (Hs0 & _ & Hex0).
-  assert (Hsc : Forall scalar (a0 :: rest)) by (eapply Forall_impl; [|exact Hg]; intros a Ha; apply (goodc_facts a Ha)).
-  assert (Hin : Forall inrv (a0 :: rest)) by (eapply Forall_impl; [|exact Hg]; intros a Ha; apply (goodc_facts a Ha)).
+  pose proof (Forall_inv Hg) as Hg0. destruct (goodc_facts o zf zd a0 Hg0) as (Hs0 & _ & Hex0).
+  assert (Hsc : Forall scalar (a0 :: rest)) by (eapply Forall_impl; [|exact Hg]; intros a Ha; apply (goodc_facts o zf zd a Ha)).
+  assert (Hin : Forall (inrv zf zd) (a0 :: rest)) by (eapply Forall_impl; [|exact Hg]; intros a Ha; apply (goodc_facts o zf zd a Ha)).
   destruct cv as [|c kk|]; [| |congruence].
   - (* no conversion: one value *)
     unfold print_arg_val in Hp. rewrite (pav_scalar o a0 rest cols prev 5 Hs0) in Hp.
     destruct (print_scalar o a0 cols) as [[[t' w'] c']|] eqn:Eps; [|discriminate]. inversion Hp; subst.
-    destruct (goodc_tok dec2f dec2d o a0 cols t tmp cols1 Hg0 Eps) as (Htk & Hnd & Hw).
+    destruct (goodc_tok dec2f dec2d o zf zd a0 cols t tmp cols1 Hg0 Eps) as (Htk & Hnd & Hw).
     exists [IVal a0 t], 1%nat. split; [reflexivity|]. split; [exact Hw|].
     split; [destruct a0; cbn in Hs0; try contradiction; reflexivity|]. split; [cbn [length]; lia|].
     split; [reflexivity|]. split; [split; [reflexivity|split; assumption]|reflexivity].
-  - destruct (range_expand_shape o (a0 :: rest) size c kk Hsc Hin Hex0 Hlen Hcv) as (n & -> & Hn5 & Hexp & Hshape).
+  - destruct (range_expand_shape zf zd (proj1 Hz) (proj2 Hz) o (a0 :: rest) size c kk Hsc Hin Hex0 Hlen Hcv) as (n & -> & Hn5 & Hexp & Hshape).
     destruct Hn5 as [Hn5 Hnl].
     destruct Hshape as [[[y Ec] Hrep]|(k & d & x & y & Ec & Hdr & Hhd & Hd0 & Hexj)]; subst c; cbn [hd] in *.
     + (* N x value *)
       rewrite (print_range_const_eq (Z.of_nat n) a0 y cols prev ltac:(lia) Hs0) in Hp.
       destruct (print_scalar o a0 (cols + len (dec_nat (Z.of_nat n) ++ [120]))) as [[[t' w'] c']|] eqn:Eps;
         [|discriminate]. inversion Hp; subst.
-      destruct (goodc_tok dec2f dec2d o a0 _ t' w' cols1 Hg0 Eps) as (Htk & Hnd & Hw).
+      destruct (goodc_tok dec2f dec2d o zf zd a0 _ t' w' cols1 Hg0 Eps) as (Htk & Hnd & Hw).
       exists [IRep (Z.of_nat n) a0 t'], n. split; [reflexivity|].
       split; [rewrite !len_app; lia|]. split; [reflexivity|]. split; [lia|].
       split; [unfold iorig; cbn [map concat item_orig]; now rewrite app_nil_r, Nat2Z.id|].
@@ -1134,11 +1260,11 @@ Proof.
         induction m as [|m IH]; [reflexivity|exact IH].
     + (* a run with a step *)
       subst a0. rewrite expand_delta in Hexp by lia. rewrite Nat2Z.id in Hexp. inversion Hexp as [Hm]. clear Hexp.
-      assert (Hsx : small_k k x) by (apply goodc_mk; exact Hg0).
+      assert (Hsx : small_k k x) by (apply (goodc_mk o zf zd); exact Hg0).
       assert (Hex : forall j, (j < n)%nat -> wr k (x + Z.of_nat j * d) = x + Z.of_nat j * d)
         by (intros j Hj; apply wr_id; apply (Hexj j Hj)).
       assert (Hsm : forall j, (j < n)%nat -> small_k k (wr k (x + Z.of_nat j * d))).
-      { intros j Hj. rewrite Hex by assumption. apply goodc_mk. eapply Forall_forall; [exact Hg|].
+      { intros j Hj. rewrite Hex by assumption. apply (goodc_mk o zf zd). eapply Forall_forall; [exact Hg|].
         eapply nth_error_In. exact (proj1 (Hexj j Hj)). }
       set (last := x + (Z.of_nat n - 1) * d).
       assert (Hlast : wr k (x + (Z.of_nat n - 1) * d) = last).
@@ -1182,7 +1308,7 @@ Proof.
         cbn [iter_text item_text item_ok item_last]. split; [reflexivity|].
         assert (Hsxd : small_k k (x + d)).
         { specialize (Hsm 1%nat ltac:(lia)). rewrite Hex in Hsm by lia. now replace (x + Z.of_nat 1 * d) with (x + d) in Hsm by lia. }
-        split; [split; [apply tok_k_tokof; now apply small_good|exact (proj1 (tok_k_chars k x Hsx))]|].
+        split; [split; [apply tok_k_tokof; now apply small_good|exact (nodot_sdots _ (proj1 (tok_k_chars k x Hsx)))]|].
         split; [|split; [exact Hsp|]].
         { unfold run_ok. split; [exact Hsxd|]. split; [exact Hslast|]. split; [unfold last; lia|]. split; [lia|].
           split; [exact Hd0|]. split; [exact Hdr|].
@@ -1220,7 +1346,7 @@ Proof.
 Qed.
 
 Lemma print_loop_iseq : forall fuel args prev i n acc pend wrt cols awtl text w,
-  Forall goodc args -> Z.of_nat (length args) < 2 ^ 31 -> n = i + Z.of_nat (length args) ->
+  Forall (goodc o zf zd) args -> Z.of_nat (length args) < 2 ^ 31 -> n = i + Z.of_nat (length args) ->
   (args = [] -> pend = false) -> (forall p, prev = Some p -> scalar p) ->
   print_vals_loop fuel o args prev i n acc pend wrt cols awtl = Some (text, w) ->
   exists its sfx, text = acc ++ sfx /\ w = wrt + len sfx - (if pend then 1 else 0) /\
@@ -1235,7 +1361,7 @@ Proof.
   - cbn [length] in Hn. replace (n <=? i) with false in Hrun by lia.
     destruct (convert_to_range o (a0 :: rest) (n - i)) as [|c kk|] eqn:Ecv; [| |discriminate].
     1: rewrite top_plain in Hrun
-         by (pose proof (Forall_inv Hg) as Hg0; destruct a0; cbn in Hg0; try contradiction; cbn; lia).
+         by (destruct (goodc_facts o zf zd a0 (Forall_inv Hg)) as (Hs0 & _); destruct a0; cbn in Hs0; try contradiction; cbn; lia).
     2: destruct (conv_yes_head _ _ _ _ Ecv) as (n0 & h0 & r0 & Ec0); rewrite Ec0 in Hrun;
        rewrite top_plain in Hrun by (cbn; lia); rewrite <- Ec0 in Hrun.
     all: match type of Hrun with context [print_arg_val ?oo ?inp ?cc ?pp] =>
@@ -1265,7 +1391,7 @@ Proof.
     all: destruct Hil as (lst & Eil & pp & Hokl).
     all: assert (Hprev2 : forall p, ilast its1 = Some p -> scalar p)
            by (intros p Ep; rewrite Eil in Ep; inversion Ep; subst; exact (item_scalar_last _ _ _ _ Hokl)).
-    all: assert (Hg2 : Forall goodc (skipn inc (a0 :: rest)))
+    all: assert (Hg2 : Forall (goodc o zf zd) (skipn inc (a0 :: rest)))
            by (rewrite <- (firstn_skipn inc (a0 :: rest)) in Hg; now apply Forall_app in Hg as [_ Hg]).
     all: destruct (i + Z.of_nat inc <? n) eqn:Ein;
          (apply IH in Hrun; [|exact Hg2|rewrite Hl2; cbn [length] in *; lia|rewrite Hl2; cbn [length] in *; lia
@@ -1310,8 +1436,8 @@ Proof.
 Qed.
 
 (* the round trip with range compression on: the scanned slots expand to the values *)
-Theorem roundtrip_compressed o vs text w :
-  compress o = true -> Forall goodc vs -> Z.of_nat (length vs) < 2 ^ 31 ->
+Theorem roundtrip_compressed o zf zd vs text w :
+  zchoice zf zd -> compress o = true -> Forall (goodc o zf zd) vs -> Z.of_nat (length vs) < 2 ^ 31 ->
   print_arg_vals o vs 0 = Some (text, w) ->
   exists slots,
     w = len text /\
@@ -1319,8 +1445,8 @@ Theorem roundtrip_compressed o vs text w :
     scan_arg_vals dec2f dec2d text (Z.of_nat (length slots)) = Ok (slots, []) /\
     expand slots = Some vs.
 Proof.
-  intros Hon Hg Hlen Hp. unfold print_arg_vals in Hp.
-  apply (print_loop_iseq dec2f dec2d o Hon) in Hp; try assumption; try lia; try reflexivity; try discriminate.
+  intros Hz Hon Hg Hlen Hp. unfold print_arg_vals in Hp.
+  apply (print_loop_iseq dec2f dec2d o Hon zf zd Hz) in Hp; try assumption; try lia; try reflexivity; try discriminate.
   destruct Hp as (its & sfx & -> & -> & Hseq & Horig & Hnil). cbn [app].
   destruct its as [|it its].
   - cbn in Hseq. subst sfx. exists []. cbn in Horig. subst vs.
@@ -1339,8 +1465,9 @@ Proof.
 Qed.
 
 (* for every option record - compression on or off *)
-Theorem roundtrip_any (dec2f dec2d : list Z -> Z) o vs text w :
-  Forall goodc vs -> Z.of_nat (length vs) < 2 ^ 31 ->
+Theorem roundtrip_any (dec2f dec2d : list Z -> Z) o zf zd vs text w :
+  zchoice zf zd ->
+  Forall (goodc o zf zd) vs -> Z.of_nat (length vs) < 2 ^ 31 ->
   print_arg_vals o vs 0 = Some (text, w) ->
   exists slots,
     w = len text /\
@@ -1348,21 +1475,43 @@ Theorem roundtrip_any (dec2f dec2d : list Z -> Z) o vs text w :
     scan_arg_vals dec2f dec2d text (Z.of_nat (length slots)) = Ok (slots, []) /\
     expand slots = Some vs.
 Proof.
-  intros Hg Hlen Hp. destruct (compress o) eqn:Ec.
-  - exact (roundtrip_compressed dec2f dec2d o vs text w Ec Hg Hlen Hp).
-  - assert (Hgv : Forall good_val vs) by (eapply Forall_impl; [|exact Hg]; apply goodc_good).
-    destruct (roundtrip_scalars dec2f dec2d o vs text w Ec Hgv Hp) as (Hw & Hc & Hs).
-    exists vs. repeat split; try assumption. apply expand_scalars.
-    eapply Forall_impl; [|exact Hg]. intros a Ha. apply (goodc_facts a Ha).
+  intros Hz Hg Hlen Hp. destruct (compress o) eqn:Ec.
+  - exact (roundtrip_compressed dec2f dec2d o zf zd vs text w Hz Ec Hg Hlen Hp).
+  - assert (Htok : forall v cols t w c, goodc o zf zd v -> print_scalar o v cols = Some (t, w, c) ->
+                     tokof dec2f dec2d v t /\ w = len t).
+    { intros v cols t w0 c Hv Hps. destruct (goodc_tok dec2f dec2d o zf zd v cols t w0 c Hv Hps) as (A & _ & B). now split. }
+    destruct (print_arg_vals_lang dec2f dec2d o (goodc o zf zd) Htok (fun v Hv => proj1 (goodc_facts o zf zd v Hv)) Ec vs text w Hg Hp)
+      as [HL Hw].
+    exists vs. split; [exact Hw|]. split; [now apply count_lang|]. split; [now apply scan_lang|]. apply expand_scalars.
+    eapply Forall_impl; [|exact Hg]. intros a Ha. apply (goodc_facts o zf zd a Ha).
 Qed.
 
-Lemma roundtrip_any_example :
-  Forall goodc ([VT; VT; VT; VT; VT; VI 7] ++ map VI [1; 2; 3; 4; 5; 6] ++ map VH [10; 20; 30; 40; 50]) /\
+Lemma roundtrip_any_example : forall o,
+  Forall (goodv o) ([VT; VT; VT; VT; VT; VI 7] ++ map VI [1; 2; 3; 4; 5; 6] ++ map VH [10; 20; 30; 40; 50]) /\
   exists text w, print_arg_vals {| lossless := true; prec := 2; linelength := 20; compress := true |}
     ([VT; VT; VT; VT; VT; VI 7] ++ map VI [1; 2; 3; 4; 5; 6] ++ map VH [10; 20; 30; 40; 50]) 0 = Some (text, w).
 Proof.
-  split.
-  - cbn [app map]. repeat constructor; cbn; lia.
+  intros o. split.
+  - cbn [app map]. repeat (constructor; [left; cbn; unfold small_k, good_k; try exact I; lia|]). constructor.
+  - eexists _, _. vm_compute. reflexivity.
+Qed.
+
+(* floats in a list: a constant run, a double, a subnormal; a bare symbol, a blob *)
+Definition ex_fl_opts : popts := {| lossless := true; prec := 2; linelength := 30; compress := true |}.
+Definition ex_fl_list : list av :=
+  repeat (VFl 1069547520) 6 ++ [VD 4591870180066957722; VFl 1; VI 3; VSym [97; 95; 49]; VB [1; 255; 16]].
+Lemma float_list_example :
+  Forall (goodv ex_fl_opts) ex_fl_list /\ nozmix ex_fl_list /\
+  exists text w, print_arg_vals ex_fl_opts ex_fl_list 0 = Some (text, w).
+Proof.
+  split; [|split].
+  - unfold ex_fl_list. cbn [repeat app].
+    repeat (constructor; [first [left; cbn; unfold small_k, good_k; lia
+                                |right; left; cbn [goodx]; first [reflexivity|repeat constructor; unfold byte_ok; lia]
+                                |right; right; split; [reflexivity|]; cbn [goodfin]; split; [lia|reflexivity]]|]).
+    constructor.
+  - split; left; unfold ex_fl_list; cbn [repeat app In]; intros H;
+      repeat (destruct H as [H|H]; [discriminate H|]); exact H.
   - eexists _, _. vm_compute. reflexivity.
 Qed.
 
@@ -1371,8 +1520,8 @@ Qed.
 Section MsgAny.
 Variables dec2f dec2d : list Z -> Z.
 
-Theorem message_roundtrip_compressed o addr vs text w :
-  compress o = true -> good_addr addr -> Forall goodc vs -> Z.of_nat (length vs) < 2 ^ 31 ->
+Theorem message_roundtrip_compressed o zf zd addr vs text w :
+  zchoice zf zd -> compress o = true -> good_addr addr -> Forall (goodc o zf zd) vs -> Z.of_nat (length vs) < 2 ^ 31 ->
   print_message o addr vs 0 = Some (text, w) ->
   exists slots,
     w = len text /\
@@ -1380,7 +1529,7 @@ Theorem message_roundtrip_compressed o addr vs text w :
     scan_message dec2f dec2d text (Z.of_nat (length slots)) = Ok (addr, slots, []) /\
     expand slots = Some vs.
 Proof.
-  intros Hon [[ar Ea] Hns] Hg Hlen Hp. unfold print_message in Hp.
+  intros Hz Hon [[ar Ea] Hns] Hg Hlen Hp. unfold print_message in Hp.
   destruct (print_vals_loop (S (length vs)) o vs None 0 (Z.of_nat (length vs)) addr true 0
               (0 + (len addr + 1)) (if 0 + (len addr + 1) =? 0 then 0 else 1)) as [[t w']|] eqn:El;
     [|discriminate].
@@ -1397,11 +1546,11 @@ Proof.
     unfold count_printed_arg_vals_of_msg, scan_message.
     rewrite !Hnw, !Hsk, !Hhd. cbn [Z.eqb Pos.eqb negb]. rewrite Hd, Ht.
     repeat split; reflexivity.
-  - apply (print_loop_iseq dec2f dec2d o Hon) in El; try assumption; try lia; try discriminate.
+  - apply (print_loop_iseq dec2f dec2d o Hon zf zd Hz) in El; try assumption; try lia; try discriminate.
     destruct El as (its & sfx & -> & -> & Hseq & Horig & _).
     assert (Hne : its <> []) by (intros ->; cbn in Horig; discriminate).
     destruct (iseq_from_iseq dec2f dec2d _ _ _ _ Hseq Hne) as (sepz & T & -> & HL & Hsep).
-    assert (Hz : (Z.of_nat (length (v :: vs')) =? 0) = false) by (apply Z.eqb_neq; cbn [length]; lia). rewrite !Hz.
+    assert (Hz0 : (Z.of_nat (length (v :: vs')) =? 0) = false) by (apply Z.eqb_neq; cbn [length]; lia). rewrite !Hz0.
     destruct its as [|it its']; [congruence|].
     destruct (iseq_first dec2f dec2d _ _ _ _ HL) as (c & r & -> & Hc).
     assert (Hsp : sepz ++ c :: r = [] \/ isspace (hd0 (sepz ++ c :: r)) = true).
@@ -1425,8 +1574,9 @@ Proof.
     + rewrite <- Horig. exact (expand_items dec2f dec2d _ _ _ HL).
 Qed.
 
-Theorem message_roundtrip_any o addr vs text w :
-  good_addr addr -> Forall goodc vs -> Z.of_nat (length vs) < 2 ^ 31 ->
+Theorem message_roundtrip_any o zf zd addr vs text w :
+  zchoice zf zd ->
+  good_addr addr -> Forall (goodc o zf zd) vs -> Z.of_nat (length vs) < 2 ^ 31 ->
   print_message o addr vs 0 = Some (text, w) ->
   exists slots,
     w = len text /\
@@ -1434,11 +1584,57 @@ Theorem message_roundtrip_any o addr vs text w :
     scan_message dec2f dec2d text (Z.of_nat (length slots)) = Ok (addr, slots, []) /\
     expand slots = Some vs.
 Proof.
-  intros Ha Hg Hlen Hp. destruct (compress o) eqn:Ec.
-  - exact (message_roundtrip_compressed o addr vs text w Ec Ha Hg Hlen Hp).
-  - assert (Hgv : Forall good_val vs) by (eapply Forall_impl; [|exact Hg]; apply goodc_good).
-    destruct (message_roundtrip dec2f dec2d o addr vs text w Ec Ha Hgv Hp) as (Hw & Hc & Hs).
+  intros Hz Ha Hg Hlen Hp. destruct (compress o) eqn:Ec.
+  - exact (message_roundtrip_compressed o zf zd addr vs text w Hz Ec Ha Hg Hlen Hp).
+  - assert (Htok : forall v cols t w c, goodc o zf zd v -> print_scalar o v cols = Some (t, w, c) ->
+                     tokof dec2f dec2d v t /\ w = len t).
+    { intros v cols t w0 c Hv Hps. destruct (goodc_tok dec2f dec2d o zf zd v cols t w0 c Hv Hps) as (A & _ & B). now split. }
+    destruct (message_roundtrip_gen dec2f dec2d o (goodc o zf zd) Htok (fun v Hv => proj1 (goodc_facts o zf zd v Hv))
+                addr vs text w Ec Ha Hg Hp) as (Hw & Hc & Hs).
     exists vs. repeat split; try assumption. apply expand_scalars.
-    eapply Forall_impl; [|exact Hg]. intros a Hx. apply (goodc_facts a Hx).
+    eapply Forall_impl; [|exact Hg]. intros a Hx. apply (goodc_facts o zf zd a Hx).
 Qed.
 End MsgAny.
+
+(* ------------------------------------------------------------------------- *)
+(* the side condition in the form the classifier of the check uses it:        *)
+(* +0.0 and -0.0 of one type do not both occur (signed-zero-run)              *)
+Lemma zero_choice o vs : Forall (goodv o) vs -> nozmix vs ->
+  exists zf zd, zchoice zf zd /\ Forall (goodc o zf zd) vs.
+Proof.
+  intros Hg [Hf Hd].
+  assert (Ef : exists zf, (zf = 0 \/ zf = 2 ^ 31) /\ ~ In (VFl zf) vs) by (destruct Hf; eauto).
+  assert (Ed : exists zd, (zd = 0 \/ zd = 2 ^ 63) /\ ~ In (VD zd) vs) by (destruct Hd; eauto).
+  destruct Ef as (zf & Hzf & Hnf). destruct Ed as (zd & Hzd & Hnd).
+  exists zf, zd. split; [split; assumption|].
+  apply Forall_forall. intros v Hin. pose proof (proj1 (Forall_forall _ _) Hg v Hin) as [H0|[H0|[Hl Hv]]]; [now left|right; now left|right].
+  right. split; [exact Hl|]. destruct v; cbn [goodfin] in Hv; try contradiction; cbn [goodfl]; destruct Hv as [Hb Hfin].
+  - split; [exact Hb|]. split; [exact Hfin|]. intros ->. contradiction.
+  - split; [exact Hb|]. split; [exact Hfin|]. intros ->. contradiction.
+Qed.
+
+Theorem roundtrip_any_nz (dec2f dec2d : list Z -> Z) o vs text w :
+  Forall (goodv o) vs -> nozmix vs -> Z.of_nat (length vs) < 2 ^ 31 ->
+  print_arg_vals o vs 0 = Some (text, w) ->
+  exists slots,
+    w = len text /\
+    count_printed_arg_vals dec2f dec2d text = Ok (true, Z.of_nat (length slots)) /\
+    scan_arg_vals dec2f dec2d text (Z.of_nat (length slots)) = Ok (slots, []) /\
+    expand slots = Some vs.
+Proof.
+  intros Hg Hnz. destruct (zero_choice o vs Hg Hnz) as (zf & zd & Hz & Hg').
+  exact (roundtrip_any dec2f dec2d o zf zd vs text w Hz Hg').
+Qed.
+
+Theorem message_roundtrip_any_nz (dec2f dec2d : list Z -> Z) o addr vs text w :
+  good_addr addr -> Forall (goodv o) vs -> nozmix vs -> Z.of_nat (length vs) < 2 ^ 31 ->
+  print_message o addr vs 0 = Some (text, w) ->
+  exists slots,
+    w = len text /\
+    count_printed_arg_vals_of_msg dec2f dec2d text = Ok (true, Z.of_nat (length slots)) /\
+    scan_message dec2f dec2d text (Z.of_nat (length slots)) = Ok (addr, slots, []) /\
+    expand slots = Some vs.
+Proof.
+  intros Ha Hg Hnz. destruct (zero_choice o vs Hg Hnz) as (zf & zd & Hz & Hg').
+  exact (message_roundtrip_any dec2f dec2d o zf zd addr vs text w Hz Ha Hg').
+Qed.
